@@ -416,30 +416,14 @@ def rule_Q(ctx):
         def __init__(self, c):
             self.position = c
 
-    class TrackS(orders.PyStub):
-        isa = ('Track',)
-
-        def __init__(self, coords):
-            self.obs = [ObsS(c) for c in coords]
-
-        def size(self):
-            return len(self.obs)
-
-        def __len__(self):
-            return len(self.obs)
-
-        def getObs(self, i):
-            return self.obs[i]
-
-        def __getitem__(self, i):
-            return self.obs[i]
-
-        def __iter__(self):
-            return iter(self.obs)
-
-        def getFirstObs(self):
-            return self.obs[0]
     fn = absint.funcs(ctx, 'tracklib.core.spatial_index', {'ENUCoords': lambda x, y, z=0: Coord(x, y), 'GeoCoords': lambda x, y, z=0: Coord(x, y)})
+    _T = absint.classref(ctx, 'tracklib.core.track.Track', fn)
+
+    def TrackS(coords):
+        # a track of the repository's own Track class (its accessors - size, getObs, getObsList, iteration ... - are the code's)
+        t_ = _T([ObsS(c) for c in coords], 'u', 't')
+        t_.obs = t_.fields['_Track__POINTS']
+        return t_
 
     def index(fill=True):
         grid = [[([('cell', i, j)] if fill else []) for j in range(LS)] for i in range(CS)]
@@ -670,30 +654,14 @@ def rule_S(ctx):
         def __init__(self, c):
             self.position = c
 
-    class TrackS(orders.PyStub):
-        isa = ('Track',)
-
-        def __init__(self, coords):
-            self.obs = [ObsS(c) for c in coords]
-
-        def size(self):
-            return len(self.obs)
-
-        def __len__(self):
-            return len(self.obs)
-
-        def getObs(self, i):
-            return self.obs[i]
-
-        def __getitem__(self, i):
-            return self.obs[i]
-
-        def __iter__(self):
-            return iter(self.obs)
-
-        def getFirstObs(self):
-            return self.obs[0]
     fn = absint.funcs(ctx, 'tracklib.core.spatial_index', {'ENUCoords': lambda x, y, z=0: Coord(x, y), 'GeoCoords': lambda x, y, z=0: Coord(x, y)})
+    _T = absint.classref(ctx, 'tracklib.core.track.Track', fn)
+
+    def TrackS(coords):
+        # a track of the repository's own Track class (its accessors - size, getObs, getObsList, iteration ... - are the code's)
+        t_ = _T([ObsS(c) for c in coords], 'u', 't')
+        t_.obs = t_.fields['_Track__POINTS']
+        return t_
     found = {}
     n_calls = 0
     for CS, LS in ((2, 5), (1, 4), (4, 1), (3, 3)):
